@@ -131,6 +131,8 @@ func solveAll(units []*UnitResult, dir string, timeoutSecs, workers int, crossCh
 				if j.o.MustSat {
 					// vacuity covers: a quick satisfiability probe; "unknown" is inconclusive, only unsat is a finding
 					r = runSolver(context.Background(), "z3-new", file, 3)
+				} else if j.o.Quick {
+					r = solveFile(file, 6, fp)
 				} else {
 					r = solveFile(file, timeoutSecs, fp)
 				}
